@@ -451,6 +451,20 @@ def run_c15(tier, seed, workdir):
         ops = [{'start': 0, 'pid': 'p', 'vars': {}}]
         plan[f"q{g}"] = dict(depth=depth, missing=missing, ending=ending, names=names, opts=opts, forced=forced, how=r.pick(['skip', 'skip', 'abort', 'error']))
         cases.append({'id': f"q{g}", 'cfg': {'keep': True}, 'models': models, 'procs': procs, 'ops': ops, 'ending': ending})
+    # calling acts that catch the error their child ends in (their own PRNG, so the chains above stay as they were): a catch-all
+    # or a catch for the code, with or without handler steps, the call followed by another act and a further step
+    rc = Rng(seed * 15485863 + 151)
+    for j in range(8 if tier == 'quick' else 100):
+        g = f"c{j}"
+        handler = [{'id': 'h1', 'acts': [{'id': 'h2', 'key': 'h2', 'uses': 'acts.core.msg'}]}] if rc.chance(50) else []
+        catch = dict({'steps': handler}, **({'on': 'e7'} if rc.chance(50) else {}))
+        opts = {'k3': rc.below(9)}
+        call = {'id': 'n2', 'key': 'n2', 'uses': 'acts.core.subflow', 'params': {'to': f"m-q{g}-1", 'options': dict(opts, pid='c1')}, 'catches': [catch]}
+        acts = [call] + ([{'id': 'n3', 'key': 'n3', 'uses': 'acts.core.msg'}] if rc.chance(60) else [])
+        steps = [{'id': 'n1', 'acts': acts}, {'id': 'n6', 'acts': [{'id': 'n7', 'key': 'n7', 'uses': 'acts.core.irq'}]}]
+        models = [{'id': 'w0', 'steps': steps, 'inputs': {}, 'outputs': {}}, child_model(rc, 0, 1)]
+        plan[f"q{g}"] = dict(depth=1, missing=False, ending='error', names=['p', 'c1'], opts=opts, forced=False, caught=True, how='skip')
+        cases.append({'id': f"q{g}", 'cfg': {'keep': True}, 'models': models, 'procs': {'p': 0, 'c1': 1}, 'ops': [{'start': 0, 'pid': 'p', 'vars': {}}], 'ending': 'error'})
     # the answer to the deepest irq act is addressed by task index: learn it from a first run
     first = run_multi(cases, os.path.join(workdir, 'probe'))
     for c in cases:
@@ -497,6 +511,12 @@ def run_c15(tier, seed, workdir):
                 want_in = "{" + ",".join(f"{k}:{v}" for k, v in sorted(pl['opts'].items())) + "}"
                 inputs_ok = 1 if (created is None or created.split(' ')[3] == want_in) else 0
                 stats['child_declares_the_input'] += int(bool(c['models'][lvl + 1].get('inputs')))
+                if pl.get('caught'):
+                    stats['caught_child_error'] += 1
+                    key = f"{c['id']}/{par}"
+                    keys[key] = c
+                    f.write(f"caught {key} child={'none' if not child_end else child_end[0] + '@' + child_end[1]} act={','.join(s + '@' + t for s, t in ends) or '-'} open={int(last not in TERM)} inputs={inputs_ok}\n")
+                    continue
                 if pl['forced']:
                     stats['forced_close'] += 1
                     key = f"{c['id']}/{par}"
@@ -527,7 +547,8 @@ def run_c15(tier, seed, workdir):
     text = {1501: "the calling act was closed before the child process ended", 1502: "the calling act was not closed exactly once with the state the child's ending maps to",
             1503: "the calling act does not carry the child's outputs", 1504: "the child did not start with exactly the inputs of the call",
             1505: "the parent's terminal event precedes the child's (or comes without it)", 1506: "a missing target model left the calling act open",
-            1507: "a calling act closed from the side while the child ran was not closed exactly once (the late return wrote to it)"}
+            1507: "a calling act closed from the side while the child ran was not closed exactly once (the late return wrote to it)",
+            1508: "a calling act that catches its child's error was not written error and then completed, each once (the catch did not bring it to its end)"}
     violations, ok = problems('15', cases, got), 0
     obs = {l.split(' ')[1]: l for l in open(obs_path)}
     for l in out.splitlines():
